@@ -56,12 +56,17 @@ private theorem predEnds_spec (es0 : List Edge) (ends : List (Nat × Int)) (v : 
     · rename_i hc
       cases hsrc : e.src with
       | start =>
-        simp only [hsrc, Option.map_eq_some_iff] at h
-        obtain ⟨o, ho, h⟩ := h
+        simp only [hsrc] at h
+        obtain ⟨o, ho, h⟩ : ∃ o, predEnds es0 ends v rest = some o ∧ o.map (0 :: ·) = some xs := by
+          cases hp : predEnds es0 ends v rest with
+          | none => simp [hp] at h
+          | some o => exact ⟨o, rfl, by simpa [hp] using h⟩
         obtain ⟨ys, rfl, rfl⟩ : ∃ ys, o = some ys ∧ xs = 0 :: ys := by
           cases o with
           | none => simp at h
-          | some ys => exact ⟨ys, rfl, by simpa using h.symm⟩
+          | some ys =>
+            simp only [Option.map_some, Option.some.injEq] at h
+            exact ⟨ys, rfl, h.symm⟩
         obtain ⟨i1, i2⟩ := ih ys ho
         constructor
         · intro e' he' hd hl
@@ -80,12 +85,17 @@ private theorem predEnds_spec (es0 : List Edge) (ends : List (Nat × Int)) (v : 
         cases hl : ends.lookup p with
         | none => simp [hl] at h
         | some t0 =>
-          simp only [hl, Option.map_eq_some_iff] at h
-          obtain ⟨o, ho, h⟩ := h
+          simp only [hl] at h
+          obtain ⟨o, ho, h⟩ : ∃ o, predEnds es0 ends v rest = some o ∧ o.map (t0 :: ·) = some xs := by
+            cases hp : predEnds es0 ends v rest with
+            | none => simp [hp] at h
+            | some o => exact ⟨o, rfl, by simpa [hp] using h⟩
           obtain ⟨ys, rfl, rfl⟩ : ∃ ys, o = some ys ∧ xs = t0 :: ys := by
             cases o with
             | none => simp at h
-            | some ys => exact ⟨ys, rfl, by simpa using h.symm⟩
+            | some ys =>
+              simp only [Option.map_some, Option.some.injEq] at h
+              exact ⟨ys, rfl, h.symm⟩
           obtain ⟨i1, i2⟩ := ih ys ho
           constructor
           · intro e' he' hd hl'
@@ -120,7 +130,7 @@ private theorem lookup_ends (items : List SItem) (p : Nat) (t : Int)
     split at h
     · rename_i heq
       simp only [Option.some.injEq] at h
-      exact ⟨x, List.mem_cons_self, by simpa using heq.symm, h⟩
+      exact ⟨x, List.mem_cons_self, by simpa using eq_comm.1 heq, h⟩
     · obtain ⟨y, hy, a⟩ := ih h
       exact ⟨y, List.mem_cons_of_mem _ hy, a⟩
 
@@ -300,7 +310,7 @@ theorem C25_asap (L : Nat) (order : List Node) (es : List Edge) (dur : Nat → O
     obtain ⟨x, hx, h1⟩ := inv.covers i (hall i hi)
     exact ⟨x, (mem x).2 hx, h1⟩
   · intro x hx; exact inv.inRange x ((mem x).1 hx)
-  · rw [List.map_reverse, List.nodup_reverse]; exact inv.once
+  · rw [List.map_reverse]; exact List.nodup_reverse.2 inv.once
   · intro x hx; exact inv.durs x ((mem x).1 hx)
   · intro x hx; exact inv.nonneg x ((mem x).1 hx)
   · intro x hx e he hl hd
